@@ -32,6 +32,11 @@ func genC17(t *rapid.T) *Case {
 				spec.IcptMD["tunnel-name"] = []string{"from-interceptor"} // appended to a key the opener also set
 			}
 		}
+		if rapid.IntRange(0, 2).Draw(t, fmt.Sprintf("t%d.srvout", i)) == 0 {
+			// a server stream interceptor on the network server puts outgoing metadata into the context of the opening call
+			// as the server end sees it (what a propagating tracer does); it is not the metadata that opened the tunnel
+			spec.SrvOutMD = map[string][]string{"x-propagated": {fmt.Sprintf("trace-%d", i)}, "tunnel-name": {"from-server-interceptor"}}
+		}
 		c.Cfg.Tunnels = append(c.Cfg.Tunnels, spec)
 	}
 	n := rapid.IntRange(2, 6).Draw(t, "nrpcs")
